@@ -122,6 +122,16 @@ C12first == \A i \in AnsNow :
                 => Resp(i).r = "fail" /\ Resp(i).code = "fee"
 C12 == C12first
 
+(* C15  wait_payment: a preimage only from a completed part; 'none' only   *)
+(*      if nothing is pending or complete at that moment                   *)
+C15 == \A o \in rets' : o.fn = "wp" =>
+          /\ (o.r = "none" => ~LivePost(o.hash))
+          /\ (o.r = "pre" => o.key = o.hash /\ CompletedPost(o.hash))
+(* C16  pay wrapper: success only with a real preimage, failure only final *)
+C16 == \A o \in rets' : o.fn = "pay" =>
+          /\ (o.r = "ok" => o.key = o.hash /\ CompletedPost(o.hash))
+          /\ (o.r = "err" => ~LivePost(o.hash) /\ pay'[o.hash].run = 0)
+
 (* C13  non-trampoline HTLCs: answered `continue` in the arrival step,     *)
 (*      no RPC, nothing else touched                                       *)
 C13 == \A i \in DOMAIN htlc' :
